@@ -24,10 +24,18 @@ WholeFile == -4      \* the renderer's id for "the range that spans the whole re
 (*    (the file definition created by `.import' spans the file, so it contains every position in it).                      *)
 Earlier(P, o, ord) == {PassOneNode(P, o, ord), PassZeroNode(P, o, ord)} \ {-1, o.node}      \* what it denoted in an earlier pass, if different
 Ambiguous(P, x, ord) == x \in {o.oid : o \in P.occs} /\ Earlier(P, OccOf(P, x), ord) # {}
+(* deviations of round 5, each with the set of occurrences it can explain *)
+DefOps(r) == SpecialOids(FilesOf(r), "ifdef")
+LoopOps(r) == SpecialOids(FilesOf(r), "loop")
+FileOps(r) == SpecialOids(FilesOf(r), "fuse")
+SpecialName(r, S) == IF S \cap DefOps(r) # {} THEN "DefinedOperandNotAUsage"
+                     ELSE IF S \cap FileOps(r) # {} THEN "FileNameInterpolationNotAUsage" ELSE "LoopIndexLocatedAtCount"
 Explain(r, P, occ, ord, d, obs, exp) ==
   LET extra == obs \ exp
       missing == exp \ obs IN
   IF extra = {} /\ missing = {} THEN "ok"
+  ELSE IF d \in ReassignedVars(P) THEN "VarReassignmentMovesDefinition"
+  ELSE IF (extra \cup missing) \subseteq (DefOps(r) \cup LoopOps(r) \cup FileOps(r)) THEN SpecialName(r, extra \cup missing)
   ELSE IF (\A x \in missing : Ambiguous(P, x, ord)) /\ (\A y \in extra : (y = WholeFile /\ occ.file # r.main) \/ Ambiguous(P, y, ord))
     THEN (IF \E x \in extra : x = WholeFile THEN "ImportedFileSpanShadowsSymbols" ELSE "UsageOfEarlierPassKept")
   ELSE "no"
@@ -44,6 +52,12 @@ JudgeOcc(r, P, o) ==
       U == {x.oid : x \in {y \in P.occs : y.node \in {-1, NoNode}}}       \* occurrences the model cannot resolve (untaken code, import quirks): unspecified
       obsUses == {x.oid : x \in {y \in SeqSet(r.obs) : y.def = d /\ ~OccOf(P, y.oid).def}}
       defrow == IF d = NoNode \/ d = -1 \/ o.def = d THEN <<>>      \* -1: unresolvable name in an untaken branch (the build never evaluates it)
+                ELSE IF d \in ReassignedVars(P)
+                  THEN <<V(r.id, "deviation", "VarReassignmentMovesDefinition", "go-to-definition leads to " \o ToString(o.def) \o ", the variable is defined at " \o ToString(d) \o at)>>
+                ELSE IF o.def = -1 /\ o.oid \in DefOps(r) \cup FileOps(r)
+                  THEN <<V(r.id, "deviation", SpecialName(r, {o.oid}), "go-to-definition finds nothing" \o at)>>
+                ELSE IF o.oid \in LoopOps(r)
+                  THEN <<V(r.id, "deviation", "LoopIndexLocatedAtCount", "go-to-definition on the loop count leads to " \o ToString(o.def) \o at)>>
                 ELSE IF o.def \in Earlier(P, occ, ord)
                   THEN <<V(r.id, "deviation", "UsageOfEarlierPassKept", "go-to-definition leads to " \o ToString(o.def) \o ", the build uses " \o ToString(d) \o at)>>
                 ELSE IF o.def = WholeFile /\ occ.file # r.main
